@@ -297,7 +297,6 @@ func (p *Proxy) Serve(l net.Listener) error {
 			return err
 		}
 		delay = 0
-		log.Debug(context.TODO(), "accepted connection", "address", conn.RemoteAddr().String())
 
 		go p.handleLoop(conn)
 	}
@@ -321,6 +320,10 @@ func (p *Proxy) handleLoop(conn net.Conn) {
 	if p.closing() {
 		return
 	}
+
+	// RemoteAddr may block (on a PROXY protocol listener it waits for the header),
+	// so it must not be evaluated in the accept loop.
+	log.Debug(context.TODO(), "accepted connection", "address", conn.RemoteAddr().String())
 
 	pc := newProxyConn(p, conn)
 
